@@ -9,3 +9,29 @@ func VerifC25ValidateAndAcquire(e *Executor, m *ShellMeta) error { return e.vali
 
 // VerifC25DangerousPattern returns the source text of the compiled argument filter.
 func VerifC25DangerousPattern() string { return dangerousArgPattern.String() }
+
+// VerifC25SessionArgv returns the argument vector the session's process is (or will be) started
+// with: exec.Cmd.Args, i.e. argv[0] = the command as requested, then the arguments.
+func VerifC25SessionArgv(s *Session) []string { return append([]string(nil), s.cmd.Args...) }
+
+// VerifC25SessionDiscard releases what NewSession allocated for a session that is never started.
+func VerifC25SessionDiscard(s *Session) {
+	s.cancel()
+	if s.stdin != nil {
+		s.stdin.Close()
+	}
+	if s.stdout != nil {
+		s.stdout.Close()
+	}
+	if s.stderr != nil {
+		s.stderr.Close()
+	}
+}
+
+// VerifC25PTYArgv is VerifC25SessionArgv for a PTY session (nil when it is not the unix implementation).
+func VerifC25PTYArgv(p PTYSessionInterface) []string {
+	if s, ok := p.(*PTYSession); ok && s.cmd != nil {
+		return append([]string(nil), s.cmd.Args...)
+	}
+	return nil
+}
